@@ -19,7 +19,14 @@ RULE = (
     "Hypothesis values and masks) with padded_before_convolution_from, "
     "trimmed_after_convolution_from and Mask2D.trimmed_array_from; imaging_autopad: Hypothesis datasets whose "
     "mask is applied via Imaging.apply_mask / the pad_for_convolver constructor / a second apply_mask; zoom: "
-    "Hypothesis masks with zoomed_around_mask, buffers 0..3. Oracle: a numpy reference embedding "
+    "Hypothesis masks with zoomed_around_mask, buffers 0..3; repeat_calls / edit_state: Hypothesis sessions of "
+    "queries (Mask2D.resized_from, Array2D resized/padded/trimmed/zoomed/extent, Mask2D zoom quantities) on "
+    "long-lived objects (one mask object shared by a native-stored, a slim-stored and freshly built arrays), the "
+    "same query repeated with one argument varied (pad value, buffer, kernel), and in edit_state interleaved with "
+    "in-place edits mask[i,j]=v and copy-derived masks (invert, copy, copy.copy, deepcopy) followed by the same "
+    "query again; every result is checked against the reference for the CURRENT contents and against the same "
+    "call on a freshly built object; imaging_autopad optionally hand-pads with pad value 0 on the same objects "
+    "first. Oracle: a numpy reference embedding "
     "out[i+s]=in[i] with s=(H'-H)/2 when the parity of an axis is preserved and s in {floor,ceil} of "
     "(H'-H)/2 when it is not (the statement does not pin the half pixel), data and mask sharing one shift; "
     "enlarge-then-shrink and pad-then-trim are the identity including pixel scales and origin; with parity "
@@ -29,7 +36,8 @@ RULE = (
     "offset. Non-trivial = parity differs on at least one axis or a shape is non-square (resize), the "
     "kernel is bigger than 1x1 and the mask has masked and unmasked pixels (pad/trim), padding actually "
     "happened (imaging), the mask is mixed and its bounding box is non-square or the zoom window leaves the "
-    "frame (zoom); distinct = SHA-1 of the canonical case."
+    "frame (zoom), a query seen twice on one object with different arguments or on both sides of a content change "
+    "(sessions); distinct = SHA-1 of the canonical case."
 )
 ASSUMPTIONS = [
     "scaled coordinate of native pixel (i,j) of an (H,W) frame is (oy+((H-1)/2-i)*sy, ox+(j-(W-1)/2)*sx) "
@@ -40,6 +48,10 @@ ASSUMPTIONS = [
     "as every caller in the repository does",
     "masked entries of a native array are zero (C01), so the reference resizes where(mask, 0, values)",
     "numba is absent, so the @jit kernels run as plain Python",
+    "sessions: a mask may be edited in place through __setitem__ as long as one pixel stays unmasked; a "
+    "native-stored array follows its (shared) mask object, a slim-stored array is only queried while the mask "
+    "still has its original contents; zoom quantities are pure functions of (contents, pixel scales, origin), so "
+    "a freshly built mask with the current contents is their reference",
 ]
 TECHNIQUE = ("exhaustive enumeration of shape pairs plus property-based testing (Hypothesis) against a numpy "
              "reference centring model, round trips and closed-form coordinates")
@@ -451,6 +463,8 @@ def imaging_given(draw):
     variant = draw(st.sampled_from(["apply_mask", "apply_mask", "ctor", "twice"]))
     case = {"shape": [h, w], "kernel": ker["values"], "mask": mask, "data": data, "noise": noise,
             "ps": draw(gens.pixel_scales()), "origin": draw(gens.origins()), "variant": variant}
+    # hand-padding / hand-resizing with pad value 0 on the very objects the dataset is then built from
+    case["pre"] = draw(st.sampled_from(["none", "pad0", "pad0"]))
     if variant == "ctor":
         case["store_native"] = draw(st.booleans())
     if variant == "twice":
@@ -494,13 +508,26 @@ def body_imaging(case, ctx):
     psf = aa.Kernel2D.no_mask(values=ker.copy(), pixel_scales=ps)
     d = aa.Array2D.no_mask(values=data.copy(), pixel_scales=ps, origin=origin)
     n = aa.Array2D.no_mask(values=noise.copy(), pixel_scales=ps, origin=origin)
+    pre = case.get("pre", "none")
+    ctx.label("pre:" + pre)
+    if pre == "pad0":
+        # results discarded: looking at a zero-padded frame first must not change what the dataset does
+        mask.resized_from(new_shape=(h + kh - 1, w + kw - 1), pad_value=0)
+        mask.resized_from(new_shape=(h + kh - 1, w + kw - 1))
     if variant == "ctor":
         sn = bool(case.get("store_native", False))
         ctx.label("ctor:native-stored" if sn else "ctor:slim-stored")
-        ds = aa.Imaging(data=aa.Array2D(values=data.copy(), mask=mask, store_native=sn),
-                        noise_map=aa.Array2D(values=noise.copy(), mask=mask, store_native=sn),
-                        psf=psf, pad_for_convolver=True)
+        d_m = aa.Array2D(values=data.copy(), mask=mask, store_native=sn)
+        n_m = aa.Array2D(values=noise.copy(), mask=mask, store_native=sn)
+        if pre == "pad0":
+            d_m.padded_before_convolution_from(kernel_shape=(kh, kw), mask_pad_value=0)
+            n_m.padded_before_convolution_from(kernel_shape=(kh, kw))
+            d_m.resized_from(new_shape=(h + kh - 1, w + kw - 1))
+        ds = aa.Imaging(data=d_m, noise_map=n_m, psf=psf, pad_for_convolver=True)
     else:
+        if pre == "pad0":
+            d.padded_before_convolution_from(kernel_shape=(kh, kw), mask_pad_value=0)
+            n.padded_before_convolution_from(kernel_shape=(kh, kw), mask_pad_value=0)
         im = aa.Imaging(data=d, noise_map=n, psf=psf)
         if variant == "twice":
             m1 = np.asarray(case["mask_first"], dtype=bool).reshape(h, w)
@@ -642,6 +669,369 @@ def body_zoom(case, ctx):
               lambda: tag + ": no integer offset places every unmasked value in the window; window=%s" % _s(zn))
 
 
+# ---------------------------------------------------------------------------------------------
+# sessions: repeated calls on the same objects, in-place edits and copy-derived masks
+# ---------------------------------------------------------------------------------------------
+ZOOM_QUANTITIES = ("zoom_region", "zoom_centre", "zoom_shape_native", "zoom_offset_pixels", "zoom_offset_scaled")
+DERIVE_KINDS = ("invert", "copy", "copy.copy", "deepcopy")
+
+
+def _distinct_values(draw, n):
+    perm = draw(st.permutations(list(range(1, n + 1))))
+    signs = draw(st.lists(st.booleans(), min_size=n, max_size=n))
+    return [0.25 * p * (1 if sg else -1) for p, sg in zip(perm, signs)]
+
+
+def _session(draw, edits):
+    """A list of queries on long-lived objects.  Blocks of: a query, often the same query with one argument
+    varied, then (edits=True) an in-place edit and/or a copy-derived mask followed by the same query again."""
+    h, w = draw(gens.shapes(1, 8))
+    mask = draw(gens.masks(shape=[h, w]))
+    vals = _distinct_values(draw, h * w)
+    focus_shape = draw(gens.shapes(1, 10))
+    focus_kernel = [draw(st.sampled_from(KERNEL_SIDES)), draw(st.sampled_from(KERNEL_SIDES))]
+    whos = ["A", "N"] if edits else ["A", "B", "N"]
+    sim = [[list(r) for r in mask]]          # tracked contents per mask object; the last one is current
+    ops = []
+    fit_y = [k for k in KERNEL_SIDES if h - 2 * (k // 2) >= 1]
+    fit_x = [k for k in KERNEL_SIDES if w - 2 * (k // 2) >= 1]
+
+    def shape_():
+        return focus_shape if draw(st.integers(0, 2)) else draw(gens.shapes(1, 10))
+
+    def kernel_():
+        if draw(st.integers(0, 2)):
+            return focus_kernel
+        return [draw(st.sampled_from(KERNEL_SIDES)), draw(st.sampled_from(KERNEL_SIDES))]
+
+    def trim_kernel_():
+        return [draw(st.sampled_from(fit_y)), draw(st.sampled_from(fit_x))]
+
+    kinds = ["mask_resize", "mask_resize", "arr_resize", "arr_pad", "arr_pad", "arr_trim", "arr_zoom", "arr_zoom",
+             "mask_zoom", "extent"]
+    if edits:
+        kinds = kinds + ["mask_zoom", "mask_zoom", "mask_zoom", "arr_zoom"]
+
+    def read_():
+        kind = draw(st.sampled_from(kinds))
+        if kind == "mask_resize":
+            return ["mask_resize", shape_(), draw(st.sampled_from([None, 0, 1]))]
+        if kind == "arr_resize":
+            return ["arr_resize", draw(st.sampled_from(whos)), shape_(), draw(st.sampled_from([0, 1]))]
+        if kind == "arr_pad":
+            return ["arr_pad", draw(st.sampled_from(whos)), kernel_(), draw(st.sampled_from([0, 1]))]
+        if kind == "arr_trim":
+            return ["arr_trim", draw(st.sampled_from(whos)), trim_kernel_()]
+        if kind == "arr_zoom":
+            return ["arr_zoom", draw(st.sampled_from(whos)), draw(st.integers(0, 3))]
+        if kind == "extent":
+            return ["extent", draw(st.sampled_from(whos)), draw(st.integers(0, 3))]
+        return ["mask_zoom", draw(st.sampled_from(ZOOM_QUANTITIES[:2] + ZOOM_QUANTITIES))]
+
+    def varied_(op):
+        """The same query on the same object with one argument varied (pad value / buffer / kernel)."""
+        v = list(op)
+        kind = op[0]
+        if kind == "mask_resize":
+            v[2] = draw(st.sampled_from([x for x in (None, 0, 1) if x != op[2]]))
+        elif kind in ("arr_resize", "arr_pad"):
+            v[3] = 1 - op[3]
+        elif kind == "arr_trim":
+            v[2] = trim_kernel_()
+        elif kind in ("arr_zoom", "extent"):
+            v[2] = (op[2] + draw(st.integers(1, 3))) % 4
+        else:
+            return None
+        return v
+
+    def set_():
+        cur = sim[-1]
+        i = draw(st.integers(0, h - 1)); j = draw(st.integers(0, w - 1))
+        v = (not cur[i][j]) if draw(st.integers(0, 3)) else cur[i][j]
+        n_un = sum(1 for r in cur for x in r if not x)
+        if v and not cur[i][j] and n_un <= 1:
+            v = False   # never mask the last unmasked pixel
+        cur[i][j] = v
+        ops.append(["set", i, j, v])
+
+    def derive_():
+        cur = sim[-1]
+        how = draw(st.sampled_from(DERIVE_KINDS))
+        if how == "invert" and not any(x for r in cur for x in r):
+            how = "copy"
+        sim.append([[(not x) if how == "invert" else x for x in r] for r in cur])
+        ops.append(["derive", how])
+
+    for _ in range(draw(st.integers(2, 5) if edits else st.integers(3, 6))):
+        op = read_()
+        ops.append(op)
+        if (not edits and draw(st.integers(0, 3))) or draw(st.booleans()):
+            v = varied_(op)
+            if v is not None:
+                ops.append(v)
+        if edits and draw(st.integers(0, 3)):
+            change = draw(st.sampled_from(["set", "set", "derive", "derive+set"]))
+            if change.startswith("derive"):
+                derive_()
+            if change.endswith("set"):
+                for _k in range(draw(st.integers(1, 3))):
+                    set_()
+            ops.append(list(op))           # the same query again: must follow the current contents
+            if draw(st.booleans()):
+                v = varied_(op)
+                if v is not None:
+                    ops.append(v)
+    return {"shape": [h, w], "mask": mask, "values": vals, "ps": draw(gens.pixel_scales()),
+            "origin": draw(gens.origins()), "ops": ops}
+
+
+@st.composite
+def repeat_given(draw):
+    return _session(draw, edits=False)
+
+
+@st.composite
+def edit_given(draw):
+    return _session(draw, edits=True)
+
+
+def _verify_resized_array(ctx, aa, r, native_in, mask_in, sout, mpad, ps, origin, key, tag):
+    h, w = mask_in.shape
+    ctx.check(tuple(r.shape_native) == tuple(sout) and tuple(r.mask.shape) == tuple(sout), key + "/shape", tag)
+    r_mask = np.asarray(r.mask, dtype=bool)
+    r_nat = np.asarray(r.native, dtype=float)
+    shm = matching_shifts(r_mask, mask_in, mpad)
+    ctx.check(bool(shm), key + "/mask", lambda: tag + ": mask got %s from %s" % (_s(r_mask), _s(mask_in)))
+    shd = set()
+    for sh in [(sy, sx) for sy in axis_shifts(h, sout[0]) for sx in axis_shifts(w, sout[1])]:
+        want = ref_embed(native_in, tuple(sout), sh, 0.0)
+        if r_mask.shape == want.shape:
+            want = np.where(r_mask, 0.0, want)
+        if want.shape == r_nat.shape and np.array_equal(want, r_nat):
+            shd.add(sh)
+    ctx.check(bool(shd), key + "/values", lambda: tag + ": native got %s from %s" % (_s(r_nat), _s(native_in)))
+    if shm and shd:
+        ctx.check(bool(shm & shd), key + "/data-mask-detached", tag)
+    _geometry(ctx, r.mask, ps, origin, key + "/geometry", tag)
+
+
+def _verify_zoom_window(ctx, zn, cur, native_in, key, tag):
+    ys, xs = np.nonzero(~cur)
+    by, bx = ys.max() - ys.min() + 1, xs.max() - xs.min() + 1
+    ok = zn.ndim == 2 and zn.shape[0] >= by and zn.shape[1] >= bx
+    if ok:
+        ok = False
+        want = native_in[ys, xs]
+        for oy in range(-int(ys.min()), zn.shape[0] - int(ys.max())):
+            for ox in range(-int(xs.min()), zn.shape[1] - int(xs.max())):
+                if np.array_equal(zn[ys + oy, xs + ox], want):
+                    ok = True
+                    break
+            if ok:
+                break
+    ctx.check(ok, key, lambda: tag + ": no integer offset places every currently unmasked value in the window %s; "
+                                     "mask=%s" % (_s(zn), _s(cur)))
+
+
+def body_session(case, ctx):
+    import copy as _copy
+    aa = _aa()
+    h, w = case["shape"]
+    ps = tuple(float(v) for v in case["ps"])
+    origin = tuple(float(v) for v in case["origin"])
+    m0 = np.asarray(case["mask"], dtype=bool).reshape(h, w)
+    vals = np.asarray(case["values"], dtype=float).reshape(h, w)
+    stored0 = np.where(m0, 0.0, vals)   # what the long-lived arrays hold (masked entries zeroed at construction)
+
+    # objs[k] = one live Mask2D object and the contents it must currently have
+    objs = [{"mask": aa.Mask2D(mask=m0.copy(), pixel_scales=ps, origin=origin), "cur": m0.copy(),
+             "edited": False, "derived": False}]
+    A = aa.Array2D(values=vals.copy(), mask=objs[0]["mask"], store_native=True)   # native-stored, shares mask object 0
+    B = aa.Array2D(values=vals.copy(), mask=objs[0]["mask"])                      # slim-stored, shares mask object 0
+    seen = {}        # (object id, query kind, shape/kernel) -> set of varying arguments
+    read_kinds_before_change = set()
+    changed = False
+
+    def fresh_mask(cur):
+        return aa.Mask2D(mask=cur.copy(), pixel_scales=ps, origin=origin)
+
+    def phase(o):
+        return "after-edit" if o["edited"] else ("after-derive" if o["derived"] else "repeat")
+
+    def array_for(who):
+        """(array, the mask-object record it is bound to, its native values now) or None if unusable."""
+        if who == "N":
+            o = objs[-1]
+            return aa.Array2D(values=vals.copy(), mask=o["mask"]), o, np.where(o["cur"], 0.0, vals)
+        o = objs[0]
+        if who == "B":
+            if not np.array_equal(o["cur"], m0):
+                ctx.label("skip:slim-array-on-edited-mask")   # a slim array cannot follow a changed pixel count
+                return None
+            return B, o, stored0
+        return A, o, np.where(o["cur"], 0.0, stored0)
+
+    def note(o, who, kind, fixed, varying):
+        k = (id(o["mask"]), who, kind, str(fixed))
+        seen.setdefault(k, set()).add(str(varying))
+        if len(seen[k]) >= 2:
+            ctx.label("repeat:%s-same-object-different-args" % kind)
+            ctx.nt(True)
+        if changed and kind in read_kinds_before_change:
+            ctx.label("reread-after-change:%s" % kind)
+            ctx.nt(True)
+        if not changed:
+            read_kinds_before_change.add(kind)
+
+    for op in case["ops"]:
+        kind = op[0]
+        if kind == "set":
+            _, i, j, v = op
+            o = objs[-1]
+            if v and not o["cur"][i, j] and int((~o["cur"]).sum()) <= 1:
+                ctx.label("skip:invalid-op")
+                continue
+            if o["cur"][i, j] != bool(v):
+                o["edited"] = True
+                changed = True
+                ctx.label("edit:set")
+            o["mask"][i, j] = bool(v)
+            o["cur"][i, j] = bool(v)
+            continue
+        if kind == "derive":
+            how = op[1]
+            o = objs[-1]
+            if how == "invert":
+                if not o["cur"].any():
+                    ctx.label("skip:invalid-op")
+                    continue
+                new_mask, new_cur = o["mask"].invert(), ~o["cur"]
+            elif how == "copy":
+                new_mask, new_cur = o["mask"].copy(), o["cur"].copy()
+            elif how == "copy.copy":
+                new_mask, new_cur = _copy.copy(o["mask"]), o["cur"].copy()
+            else:
+                new_mask, new_cur = _copy.deepcopy(o["mask"]), o["cur"].copy()
+            ctx.label("derive:" + how)
+            changed = True
+            objs.append({"mask": new_mask, "cur": new_cur, "edited": False, "derived": True})
+            ctx.check(isinstance(new_mask, aa.Mask2D), "derive/type", "%s() returned %s" % (how, type(new_mask).__name__))
+            ctx.equal(np.asarray(new_mask, dtype=bool), new_cur, "derive/contents", "mask.%s() contents" % how)
+            continue
+
+        if kind == "mask_resize":
+            _, sout, pv = op
+            sout = tuple(sout)
+            o = objs[-1]
+            ph = phase(o)
+            note(o, "mask", "mask_resize", sout, pv)
+            tag = "[%s] Mask2D.resized_from(%s, pad_value=%s)" % (ph, sout, pv)
+            rm = o["mask"].resized_from(new_shape=sout) if pv is None else o["mask"].resized_from(new_shape=sout, pad_value=pv)
+            ctx.check(tuple(rm.shape_native) == sout, ph + "/mask2d/resized/shape", tag)
+            ctx.check(bool(matching_shifts(np.asarray(rm, dtype=bool), o["cur"], bool(pv))), ph + "/mask2d/resized/values",
+                      lambda: tag + ": got %s from current contents %s" % (_s(rm), _s(o["cur"])))
+            _geometry(ctx, rm, ps, origin, ph + "/mask2d/resized/geometry", tag)
+            fm = fresh_mask(o["cur"])
+            want = fm.resized_from(new_shape=sout) if pv is None else fm.resized_from(new_shape=sout, pad_value=pv)
+            ctx.equal(np.asarray(rm, dtype=bool), np.asarray(want, dtype=bool), ph + "/mask2d/resized/values",
+                      tag + " vs the same call on a freshly built mask")
+            continue
+
+        if kind == "mask_zoom":
+            q = op[1]
+            o = objs[-1]
+            ph = phase(o)
+            note(o, "mask", "mask_zoom", "", "")
+            ctx.label("mask_zoom:" + q)
+            got = getattr(o["mask"], q)
+            want = getattr(fresh_mask(o["cur"]), q)
+            tag = "[%s] Mask2D.%s" % (ph, q)
+            ctx.close(np.asarray(got, dtype=float), np.asarray(want, dtype=float), ph + "/mask2d/" + q,
+                      atol=1e-9 * (1.0 + abs(origin[0]) + abs(origin[1]) + max(h, w) * max(ps)),
+                      what=tag + " vs a freshly built mask with the current contents")
+            if q == "zoom_region":
+                ys, xs = np.nonzero(~o["cur"])
+                g = [int(v) for v in got]
+                ctx.check(g[0] <= ys.min() and g[1] >= ys.max() + 1 and g[2] <= xs.min() and g[3] >= xs.max() + 1,
+                          ph + "/mask2d/zoom_region", tag + ": %s does not contain rows %d..%d cols %d..%d" % (
+                              g, ys.min(), ys.max(), xs.min(), xs.max()))
+            continue
+
+        who = op[1]
+        got = array_for(who)
+        if got is None:
+            continue
+        arr, o, native_in = got
+        cur = o["cur"]
+        ph = phase(o)
+        ctx.label("who:" + who)
+        fresh_arr = aa.Array2D(values=native_in.copy(), mask=fresh_mask(cur), store_native=(who == "A"))
+
+        if kind == "arr_resize":
+            _, _, sout, mpv = op
+            sout = tuple(sout)
+            note(o, who, "arr_resize", sout, mpv)
+            tag = "[%s] Array2D(%s).resized_from(%s, mask_pad_value=%s)" % (ph, who, sout, mpv)
+            r = arr.resized_from(new_shape=sout, mask_pad_value=mpv)
+            _verify_resized_array(ctx, aa, r, native_in, cur, sout, bool(mpv), ps, origin, ph + "/array2d/resized", tag)
+            f = fresh_arr.resized_from(new_shape=sout, mask_pad_value=mpv)
+            ctx.equal(np.asarray(r.mask, dtype=bool), np.asarray(f.mask, dtype=bool), ph + "/array2d/resized/mask",
+                      tag + " mask vs freshly built array")
+            ctx.equal(np.asarray(r.native, dtype=float), np.asarray(f.native, dtype=float), ph + "/array2d/resized/values",
+                      tag + " native vs freshly built array")
+        elif kind == "arr_pad":
+            _, _, (kh, kw), mpv = op
+            note(o, who, "arr_pad", (kh, kw), mpv)
+            tag = "[%s] Array2D(%s).padded_before_convolution_from(%s, mask_pad_value=%s)" % (ph, who, (kh, kw), mpv)
+            r = arr.padded_before_convolution_from(kernel_shape=(kh, kw), mask_pad_value=mpv)
+            pad = ((kh // 2, kh // 2), (kw // 2, kw // 2))
+            ctx.equal(np.asarray(r.mask, dtype=bool), np.pad(cur, pad, constant_values=bool(mpv)),
+                      ph + "/array2d/padded/mask", tag + " mask")
+            ctx.equal(np.asarray(r.native, dtype=float), np.pad(native_in, pad), ph + "/array2d/padded/values", tag + " native")
+            _geometry(ctx, r.mask, ps, origin, ph + "/array2d/padded/geometry", tag)
+            if tuple(r.shape_native) == (h + kh - 1, w + kw - 1):
+                note(o, who, "arr_pad_trim", "", (kh, kw))
+                t = r.trimmed_after_convolution_from(kernel_shape=(kh, kw))
+                # the padded ring is cut away again whatever it was filled with
+                ctx.equal(np.asarray(t.mask, dtype=bool), cur, ph + "/array2d/pad-trim/identity", tag + " then trim: mask")
+                ctx.equal(np.asarray(t.native, dtype=float), native_in, ph + "/array2d/pad-trim/identity", tag + " then trim: native")
+        elif kind == "arr_trim":
+            _, _, (kh, kw) = op
+            py, px = kh // 2, kw // 2
+            if h - 2 * py < 1 or w - 2 * px < 1:
+                ctx.label("skip:trim-does-not-fit")
+                continue
+            note(o, who, "arr_trim", "", (kh, kw))
+            tag = "[%s] Array2D(%s).trimmed_after_convolution_from(%s)" % (ph, who, (kh, kw))
+            t = arr.trimmed_after_convolution_from(kernel_shape=(kh, kw))
+            sl = (slice(py, h - py), slice(px, w - px))
+            ctx.equal(np.asarray(t.mask, dtype=bool), cur[sl], ph + "/array2d/trimmed/mask", tag + " mask")
+            ctx.equal(np.asarray(t.native, dtype=float), native_in[sl], ph + "/array2d/trimmed/values", tag + " native")
+            _geometry(ctx, t.mask, ps, origin, ph + "/array2d/trimmed/geometry", tag)
+        elif kind == "arr_zoom":
+            buffer = int(op[2])
+            note(o, who, "arr_zoom", "", buffer)
+            tag = "[%s] Array2D(%s).zoomed_around_mask(buffer=%d)" % (ph, who, buffer)
+            z = arr.zoomed_around_mask(buffer=buffer)
+            zn = np.asarray(z.native, dtype=float)
+            _verify_zoom_window(ctx, zn, cur, native_in, ph + "/zoom/values", tag)
+            f = np.asarray(fresh_arr.zoomed_around_mask(buffer=buffer).native, dtype=float)
+            ctx.equal(zn, f, ph + "/zoom/values", tag + " vs freshly built array")
+        elif kind == "extent":
+            buffer = int(op[2])
+            note(o, who, "extent", "", buffer)
+            tag = "[%s] Array2D(%s).extent_of_zoomed_array(buffer=%d)" % (ph, who, buffer)
+            e = np.asarray(arr.extent_of_zoomed_array(buffer=buffer), dtype=float)
+            f = np.asarray(fresh_arr.extent_of_zoomed_array(buffer=buffer), dtype=float)
+            ctx.close(e, f, ph + "/zoom/extent", atol=1e-9 * (1.0 + abs(origin[0]) + abs(origin[1]) + (max(h, w) + 8) * max(ps)),
+                      what=tag + " vs freshly built array")
+
+    # the objects left behind still hold exactly the tracked contents (an edit of a copy must not leak)
+    for k, o in enumerate(objs):
+        ctx.equal(np.asarray(o["mask"], dtype=bool), o["cur"], "derive/aliasing",
+                  "contents of mask object %d at the end of the session" % k)
+
+
 SUBCHECKS = [
     SubCheck("resize_pairs", _check_resize, cases=cases_resize, shards={"quick": 16, "thorough": 16}),
     SubCheck("resize_given", _check_resize, strategy=resize_given(), examples={"quick": 300, "thorough": 4000},
@@ -653,4 +1043,8 @@ SUBCHECKS = [
              shards={"quick": 4, "thorough": 8}),
     SubCheck("zoom", body_zoom, strategy=zoom_given(), examples={"quick": 600, "thorough": 6000},
              shards={"quick": 2, "thorough": 8}),
+    SubCheck("repeat_calls", body_session, strategy=repeat_given(), examples={"quick": 400, "thorough": 6000},
+             shards={"quick": 4, "thorough": 8}),
+    SubCheck("edit_state", body_session, strategy=edit_given(), examples={"quick": 600, "thorough": 8000},
+             shards={"quick": 4, "thorough": 8}),
 ]
